@@ -18,9 +18,11 @@ package format
 
 import (
 	"encoding/json"
+	"fmt"
 	"github.com/go-netty/go-netty"
 	"github.com/go-netty/go-netty/codec"
 	"github.com/go-netty/go-netty/utils"
+	"io"
 )
 
 // JSONCodec create a json codec
@@ -61,6 +63,12 @@ func (j *jsonCodec) HandleRead(ctx netty.InboundContext, message netty.Message) 
 	// decode to map
 	var object = make(map[string]interface{})
 	utils.Assert(jsonDecoder.Decode(&object))
+
+	// the frame must hold exactly one json value: whatever follows it would otherwise be left in
+	// the stream (or lost in the decoder's read-ahead buffer) and desynchronise the next frames.
+	if _, err := jsonDecoder.Token(); io.EOF != err {
+		utils.Assert(fmt.Errorf("unexpected data after the json object: %v", err))
+	}
 
 	// post object
 	ctx.HandleRead(object)
